@@ -180,6 +180,30 @@ def run(prog, tier, extra=None):
                 pth = gcv.find_path(n, {HL}, blocked=handling | outside)
                 if pth:
                     skip = pth
+        # what is booked as fees: an iteration that rebroadcasts books the rebroadcast fee, an iteration that does not
+        # rebroadcast collects the output's own amount ("if too small to pay the fee, its value is collected as fees")
+        rebro = {bb for bb in handling if gcv.term(bb)["k"] == "call" and "create_rebroadcast" in (call_name(gcv.term(bb)) or "")}
+        from ..expr import has_field as _hf, walk as _wk
+        for bb in sorted(handling - rebro):
+            addend_is_amount = None
+            for st in gcv.stmts(bb):
+                if st[0] == "=" and any(isinstance(pr, list) and pr[0] == "f" and pr[3] == "total_fees_atr" for pr in st[1][1]):
+                    e = chq.rvalue(st[2], 0)
+                    for x in _wk(e):
+                        if x[0] == "bin" and x[1].startswith("Add") and (_hf(x[2], "ConsensusValues", "total_fees_atr") or _hf(x[3], "ConsensusValues", "total_fees_atr")):
+                            other = x[3] if _hf(x[2], "ConsensusValues", "total_fees_atr") else x[2]
+                            addend_is_amount = _hf(other, "slip::Slip", "amount") and not any(y[0] == "bin" and y[1].startswith(("Mul", "Sub")) for y in _wk(other))
+            if addend_is_amount is None:
+                continue
+            res.instance(R4)
+            on_plain = any(gcv.find_path(n, {bb}, blocked=rebro | outside) for n in gcv.succ(HL) if n in loop_body) and \
+                any(gcv.find_path(n, {HL}, blocked=rebro | outside) for n in gcv.succ(bb) if n in loop_body)
+            on_rebro = not on_plain or any(gcv.find_path(r, {bb}, blocked=outside) or gcv.find_path(bb, {r}, blocked=outside | {HL}) for r in rebro)
+            if on_plain and not addend_is_amount:
+                res.add(Finding(R4, "C13.handled|dust-booked-as-fee", "an output that is not rebroadcast adds something other than its own amount to total_fees_atr: "
+                                "the difference is created or destroyed", gcv.loc(bb, None)))
+            elif addend_is_amount and not on_plain:
+                res.add(Finding(R4, "C13.handled|amount-booked-on-rebroadcast", "a rebroadcast output also has its whole amount booked as fees (counted twice)", gcv.loc(bb, None)))
         if skip:
             res.add(Finding(R4, "C13.handled|iteration-without-handling", "an iteration of the ATR handling loop can finish without rebroadcasting the output or collecting it as fees", gcv.loc(skip[0])))
         else:
